@@ -91,6 +91,25 @@ fn viol(ctx: &mut Ctx, n: usize, op: &ZOp, what: &str, detail: String) {
         "small"
     };
     ctx.violation("C19", format!("zst|op={}|ncap={}|{}", op.name(), ncl, what), format!("{:?}: {}; case={}", op, detail, c));
+    // the same observation also refutes the property that specifies this operation for all N
+    let also: &[&'static str] = match op {
+        ZOp::Get(_) | ZOp::NthBack(_) | ZOp::Index(_) | ZOp::FrontBack | ZOp::AsSlices | ZOp::MakeContiguous | ZOp::HashDebug | ZOp::EqSlice => &["C07"],
+        ZOp::Iter(..) => &["C08", "C07"],
+        ZOp::Drain(_, _, _, false) => &["C09"],
+        ZOp::Drain(_, _, _, true) => &["C10"],
+        ZOp::CloneBuf | ZOp::CloneFrom(_) | ZOp::ToVec => &["C12"],
+        ZOp::PushBack | ZOp::PushFront | ZOp::TryPushBack | ZOp::TryPushFront => &["C02", "C01"],
+        _ => &["C01"],
+    };
+    for p in also {
+        ctx.violation(p, format!("zst|op={}|ncap={}|{}", op.name(), ncl, what), format!("{:?}: {}; case={}", op, detail, c));
+    }
+    if what == "unexpected_panic" || what == "missing_documented_panic" || what == "changed_by_panicking_call" {
+        ctx.violation("C11", format!("zst|op={}|ncap={}|{}", op.name(), ncl, what), format!("{:?}: {}; case={}", op, detail, c));
+    }
+    if what == "count_conservation" || what == "premature_drop" || what == "teardown_count" {
+        ctx.violation("C03", format!("zst|op={}|ncap={}|{}", op.name(), ncl, what), format!("{:?}: {}; case={}", op, detail, c));
+    }
 }
 
 /// Executes one op; `len` is the model (number of elements). Returns false if the buffer state is
